@@ -17,6 +17,7 @@
 import Lumina.Gen.C08
 import Lumina.Proofs.EdsMalformed
 import Lumina.Proofs.EdsAccept
+import Lumina.Proofs.EdsWitness
 
 namespace Lumina.Props.C08
 open Lumina.Util Lumina.Model.Nmt Lumina.Model.Eds Lumina.Model.EdsCode
@@ -217,7 +218,7 @@ example (k : Nat) : EncLinear (fun row => row) k 512 where
 
 /-- **Joint non-vacuity at k = 1**: the repetition code (Reed–Solomon for one data symbol) with the decoder "copy the
     symbol that is present" satisfies `EncShape`, `EncLinear` AND `MDS` together.  (For k ≥ 2 the repetition code is not
-    MDS; a joint witness there needs genuine GF(2^8) arithmetic on bytes — see design_notes/C08.md, audit response.) -/
+    MDS; see `joint_witness_k2`.) -/
 def recK1 (l : List Bytes) : List Bytes :=
   match l with
   | [a, b] => if a.isEmpty then [b, b] else [a, a]
@@ -255,5 +256,15 @@ theorem joint_witness_k1 :
     | [true, false], _ => simp [erase, recK1, hne]
     | [false, true], _ => simp [erase, recK1]
     | [false, false], _ => simp at hpres
+
+/-- **Joint non-vacuity at k = 2**: there is an encoder on 512-byte shares that is shape-correct, bytewise LINEAR over a
+    field structure on bytes, and MDS — the [4,2] code `(a, b) ↦ (a, b, a + b, a + α·b)` over GF(2^8) (Mathlib's `GaloisField 2 8`
+    through a bijection with bytes, `α ∉ {0, 1}`), with the decoder "the codeword consistent with the present symbols".
+    So the hypotheses of `extend_spec` / `any_half_reconstructs` (and of C07's `befp_sound_honest_block`) are jointly
+    satisfiable beyond the repetition code. -/
+theorem joint_witness_k2 :
+    ∃ (enc rec : List Bytes → List Bytes), EncShape enc 2 ∧ Nonempty (EncLinear enc 2 512) ∧ MDS enc rec 2 :=
+  ⟨Lumina.Proofs.EdsWitness.enc2, Lumina.Proofs.EdsWitness.rec2, Lumina.Proofs.EdsWitness.encShape2,
+    ⟨Lumina.Proofs.EdsWitness.encLinear2⟩, Lumina.Proofs.EdsWitness.mds2⟩
 
 end Lumina.Props.C08
